@@ -201,10 +201,9 @@ fn enumerate_block(alphabet: &[&str], block: u64, max_len: u32, out: &mut CaseOu
     }
 }
 
-const IDENT_SHAPES: [&str; 30] = [
+const IDENT_SHAPES: [&str; 38] = [
     "a", "EXa", "AUx", "AU_1", "A", "E", "E_", "EX_", "AFAF", "3x", "V1", "V_1", "1a", "12", "_", "__x", "true1", "True", "false", "0", "1", "in", "é", "٣", "x²", "EU1", "AGa",
-    "Vx", "33", "a_very_long_identifier_name_0123456789_abcdefghijklmnopqrstuvwxyz",
-];
+    "Vx", "33", "a_very_long_identifier_name_0123456789_abcdefghijklmnopqrstuvwxyz", "TRUE", "FALSE", "tRuE", "False_", "T", "\u{3b2}1", "AGO1", "V"];
 const OP_TOKENS: [&str; 22] =
     ["~", "&", "|", "^", "=>", "<=>", "EX", "AX", "EF", "AF", "EG", "AG", "EU", "AU", "EW", "AW", "(", ")", "(", ")", "~", "&"];
 const BLANKS: [&str; 6] = ["", " ", "  ", "\t", "\u{a0}", "\n"];
@@ -265,7 +264,7 @@ fn render_loose(f: &F, rng: &mut Rng) -> String {
 }
 
 pub fn random_string(rng: &mut Rng) -> (String, &'static str) {
-    let props: Vec<String> = ["a", "b", "EXa", "V1", "3x", "p_1", "\u{3b2}1", "AGO1", "true1", "V"].iter().map(|s| s.to_string()).collect();
+    let props: Vec<String> = ["a", "b", "EXa", "V1", "3x", "p_1", "\u{3b2}1", "AGO1", "true1", "V", "TRUE", "FALSE", "tRuE"].iter().map(|s| s.to_string()).collect();
     let mut fopts = FormOpts::plain();
     fopts.bin_ops = ALL_BIN.to_vec();
     fopts.max_size = 10;
